@@ -860,12 +860,29 @@ class World:
         return bad
 
 
+ARG_ARITY = [0, 1, 1, 2, 2, 1, 1, 1, 1, 2, 1, 2, -1, 1, 1, 2]  # positional arguments of each ARG_SHAPES entry; -1 = keyword
 ARG_SHAPES = ["", ": 'a'", ": 1", ": 'a', 1", ": 'b', 'y'", ": i => i.a", ": i => i", ": (i, j) => j", ": {P2}",
               ": 2, 1", ": '%Y'", ": 'l', 'L'", ": allow_false: true", ": nil", ": ' '", ": {P2}, 'x'"]
 
 
-def filter_sources(filters: list[str], thorough: bool, r) -> list[tuple[str, str, str]]:
-    """(label, path, template with {R} for the root name)."""
+def filter_arity(f: Any) -> tuple[int, int, bool]:
+    """(required, maximal) number of positional arguments after the left value, accepts keywords."""
+    import inspect
+    try:
+        sig = inspect.signature(f)
+    except (TypeError, ValueError):
+        return 0, 3, True
+    ps = list(sig.parameters.values())
+    pos = [p for p in ps if p.kind in (p.POSITIONAL_ONLY, p.POSITIONAL_OR_KEYWORD)][1:]
+    req = sum(1 for p in pos if p.default is p.empty)
+    mx = 3 if any(p.kind == p.VAR_POSITIONAL for p in ps) else len(pos)
+    kw = any(p.kind == p.VAR_KEYWORD or p.name == "allow_false" for p in ps)
+    return req, mx, kw
+
+
+def filter_sources(filters: dict[str, Any], thorough: bool, r) -> list[tuple[str, str, str]]:
+    """(label, path, template with {R} for the root name). Argument shapes are
+    drawn from those the filter's signature accepts, plus one it does not."""
     out = []
     arrayish = {"join", "first", "last", "concat", "map", "reverse", "sort", "sort_natural", "sort_numeric", "sum",
                 "where", "reject", "uniq", "compact", "find", "find_index", "has", "size", "slice", "default",
@@ -877,13 +894,16 @@ def filter_sources(filters: list[str], thorough: bool, r) -> list[tuple[str, str
             paths = r.sample(PATHS, 12) + ["ints", "dicts"]
         else:
             paths = r.sample(PATHS, 4) + ["ints", "dicts"]
+        req, mx, kw = filter_arity(filters[f])
+        fits = [a for a, n in zip(ARG_SHAPES, ARG_ARITY) if (req <= n <= mx) or (n == -1 and kw and req == 0)]
+        misfits = [a for a in ARG_SHAPES if a not in fits]
         for p in dict.fromkeys(paths):
             if thorough:
-                shapes = ARG_SHAPES
+                shapes = fits + (r.sample(misfits, min(2, len(misfits))))
             elif f in arrayish:
-                shapes = ARG_SHAPES[:1] + r.sample(ARG_SHAPES[1:], 7)
+                shapes = r.sample(fits, min(7, len(fits))) + r.sample(misfits, min(1, len(misfits)))
             else:
-                shapes = ARG_SHAPES[:1] + r.sample(ARG_SHAPES[1:], 3)
+                shapes = r.sample(fits, min(3, len(fits))) + r.sample(misfits, min(1, len(misfits)))
             for a in shapes:
                 P = "{R}" + ("." + p if p and not p.startswith("[") else p)
                 P2 = "{R}.dicts" if p != "dicts" else "{R}.ints"
@@ -1011,8 +1031,9 @@ def part_d(chk: C.Check, thorough: bool) -> None:
                 ("default,async", mk_env(Environment, False), True)]
 
     envs = make_envs()
-    filters = sorted(envs[0][1].filters)
-    cases = filter_sources(filters, thorough, r) + tag_sources(thorough, r) + pair_sources(filters, thorough, r)
+    raw_filters = dict(sorted(envs[2][1].filters.items()))  # the un-spied callables
+    filters = list(raw_filters)
+    cases = filter_sources(raw_filters, thorough, r) + tag_sources(thorough, r) + pair_sources(filters, thorough, r)
     st = chk.coverage.setdefault("partD", {"renders": 0, "ok": 0, "parse_rejected": 0, "errors": {}, "by_kind": {},
                                            "outputs_nonempty": 0})
     loop = asyncio.new_event_loop()
@@ -1070,7 +1091,7 @@ def part_d(chk: C.Check, thorough: bool) -> None:
                             break
     finally:
         loop.close()
-    st["distinct_filter_path_pairs_where_a_caller_container_reached_the_filter"] = len(touched)
+    st["distinct_label_path_pairs_in_which_a_caller_container_object_reached_a_filter"] = len(touched)
     st["distinct_label_path_pairs_rendered_past_parsing"] = len(exercised)
     st["labels"] = len({c[0] for c in cases})
     chk.coverage["_d_nontrivial"] = len(touched | {e for e in exercised if not e[0].startswith("filter:")})
@@ -1104,9 +1125,12 @@ def main(chk: C.Check, build: C.Build) -> None:
         for x in it:
             x["replay"]["part"] = part
     items = items_a + items_b + items_c
-    C.correspond(chk, "c10", IMPORTS, DEFS, items,
-                 what="ChainMap.v (render, ctx_copy, exec_list, cm_*) vs public API / RenderContext / ReadOnlyChainMap",
-                 shard=250)
+    # common.run_cases numbers the cases with unary nat indexes: keep every call small
+    what = "ChainMap.v (render, ctx_copy, exec_list, cm_*) vs public API / RenderContext / ReadOnlyChainMap"
+    t0 = time.time()
+    for ci in range(0, len(items), 800):
+        C.correspond(chk, f"c10_{ci // 800}", IMPORTS, DEFS, items[ci:ci + 800], what=what, shard=134)
+    walls["coq_cases"] = round(time.time() - t0, 1)
     C.proofs_verdict(chk, proofs_ok)
 
     a, b, c, d = (chk.coverage[k] for k in ("partA", "partB", "partC", "partD"))
